@@ -362,9 +362,134 @@ Proof.
     apply andb_true_iff in H2. destruct H2 as [H2 H3]. apply andb_true_iff. split; [apply block_ok_weaken; exact H2 | apply IH; exact H3].
 Qed.
 
+(* ---------- one removal request per path: at most two delete blocks, of the right classes ---------- *)
+Section Requests.
+  Variable x : gctx.
+
+  Lemma rp_app a b : removal_proj (a ++ b) = removal_proj a ++ removal_proj b.
+  Proof. unfold removal_proj. rewrite map_app, concat_app. reflexivity. Qed.
+  Lemma rp_others l : others l -> removal_proj l = [].
+  Proof.
+    induction l as [|c l IH]; intros H; [reflexivity|]. unfold removal_proj in *. cbn [map concat].
+    rewrite IH by (intros c' Hc'; apply H; right; exact Hc').
+    assert (Hc : is_other c = true) by (apply H; left; reflexivity).
+    destruct c as [[]|[]]; try discriminate; reflexivity.
+  Qed.
+  Lemma rp_terms ac : term_seg x ac -> removal_proj (liftA ac) = repeat None (length ac).
+  Proof.
+    induction ac as [|c ac IH]; intros H; [reflexivity|]. unfold removal_proj in *. cbn [liftA map concat length repeat].
+    fold (liftA ac). rewrite IH by (intros c' Hc'; apply H; right; exact Hc').
+    destruct (H c (or_introl eq_refl)) as (inst & ok & -> & _). reflexivity.
+  Qed.
+  Lemma rp_dels kc : del_seg kc -> removal_proj (liftK kc) = map Some (map fst (blk_of kc)).
+  Proof.
+    induction kc as [|c kc IH]; intros H; [reflexivity|]. unfold removal_proj in *. cbn [liftK map concat blk_of].
+    fold (liftK kc) (blk_of kc). rewrite IH by (intros c' Hc'; apply H; right; exact Hc').
+    destruct (H c (or_introl eq_refl)) as (n & ok & ->). reflexivity.
+  Qed.
+
+  Lemma blocks_nones k r : del_blocks (repeat None k ++ r) [] = del_blocks r [].
+  Proof. induction k as [|k IH]; [reflexivity | exact IH]. Qed.
+  Lemma blocks_somes ns : forall r cur, del_blocks (map Some ns ++ r) cur = del_blocks r (cur ++ ns).
+  Proof. induction ns as [|n ns IH]; intros r cur; cbn [map app del_blocks]; [rewrite app_nil_r; reflexivity|]. rewrite IH, <- app_assoc. reflexivity. Qed.
+  Lemma blocks_nones_cur k r cur : cur <> [] -> (0 < k)%nat -> del_blocks (repeat None k ++ r) cur = cur :: del_blocks r [].
+  Proof.
+    intros Hc Hk. destruct k as [|k]; [lia|]. cbn [repeat app del_blocks]. destruct cur as [|c0 cur']; [contradiction Hc; reflexivity|].
+    rewrite blocks_nones. reflexivity.
+  Qed.
+
+  Theorem journal_requests lag Af Kf Ar Kr tail :
+    others lag -> seg_ok x Af Kf -> seg_ok x Ar Kr -> others tail ->
+    names_in (c_forced (x_cls x)) (map fst (blk_of Kf)) = true -> names_in (c_tainted (x_cls x)) (map fst (blk_of Kr)) = true ->
+    check_C19_requests x (lag ++ (liftA Af ++ liftK Kf) ++ (liftA Ar ++ liftK Kr) ++ tail) = true.
+  Proof.
+    intros Hlag (Hf1 & Hf2 & Hf3) (Hr1 & Hr2 & Hr3) Htail Hnf Hnr. unfold check_C19_requests.
+    rewrite !rp_app, (rp_others lag Hlag), (rp_others tail Htail), (rp_terms Af Hf1), (rp_dels Kf Hf2), (rp_terms Ar Hr1), (rp_dels Kr Hr2).
+    rewrite app_nil_r. cbn [app]. rewrite <- !app_assoc.
+    set (nf := map fst (blk_of Kf)) in *. set (nr := map fst (blk_of Kr)) in *.
+    rewrite blocks_nones, blocks_somes. cbn [app].
+    assert (Hend : forall cur, del_blocks (map Some nr) cur = del_blocks [] (cur ++ nr)).
+    { intros cur. rewrite <- (app_nil_r (map Some nr)). apply blocks_somes. }
+    destruct nf as [|f0 nf'] eqn:Enf.
+    - rewrite blocks_nones, Hend. cbn [app del_blocks]. destruct nr; reflexivity.
+    - destruct Ar as [|ar Ar'].
+      + assert (Kr = []) by (destruct Kr as [|k Kr']; [reflexivity|]; destruct Hr3 as [H _]; [discriminate | congruence]).
+        subst Kr. cbn [length repeat app]. subst nr. cbn [blk_of map app del_blocks]. reflexivity.
+      + rewrite blocks_nones_cur by (try discriminate; cbn [length]; lia). rewrite Hend. cbn [app del_blocks].
+        destruct nr as [|r0 nr'] eqn:Enr; [reflexivity|]. rewrite Hnf, Hnr. reflexivity.
+  Qed.
+End Requests.
+
+Lemma removal_names_in (a : option asg) cands cls kc :
+  (forall n, In n cands -> In n cls) -> (forall c, In c (liftK kc) -> removal_of a cands c) ->
+  names_in cls (map fst (blk_of kc)) = true.
+Proof.
+  intros Hsub H. unfold names_in. apply forallb_forall. intros nm Hnm. unfold blk_of in Hnm. rewrite map_map in Hnm.
+  apply in_map_iff in Hnm. destruct Hnm as [c [<- Hc]].
+  assert (Hr : removal_of a cands (CK c)) by (apply H; unfold liftK; apply in_map; exact Hc).
+  inversion Hr as [|n ok Hn Heq]; subst. simpl. unfold in_class. apply existsb_exists. exists n. split; [apply Hsub; exact Hn | apply Z.eqb_refl].
+Qed.
+
+Theorem group_passes_C19_requests now gdry api g a nodes pods :
+  check_C19_requests (ctx_of now gdry api g a nodes pods) (r_calls (scan_of now gdry api g a nodes pods)) = true.
+Proof.
+  set (x := ctx_of now gdry api g a nodes pods).
+  assert (Hcls : x_cls x = filter_nodes (x_dry x) (x_st x) (x_nodes x)) by reflexivity.
+  assert (Hasg : x_asg x = a) by reflexivity.
+  assert (Hsimple : forall l, others l -> check_C19_requests x l = true).
+  { intros l Hl. unfold check_C19_requests. rewrite (rp_others l Hl). reflexivity. }
+  apply (scan_of_frame (fun r => check_C19_requests x (r_calls r) = true) now gdry api g a nodes pods x eq_refl).
+  all: clearbody x.
+  - intros. reflexivity.
+  - intros _ _ _ tags. apply Hsimple. apply scale_up_others.
+  - intros _ _ _ _ cpuP memP _. split.
+    + intros tags d _. apply Hsimple. apply lag_others.
+    + intros tags d0 _. unfold scan_act. rewrite <- Hasg.
+      set (lag := liftA (registration_lag_calls _ _ _)).
+      assert (Hlag : others lag) by apply lag_others.
+      assert (Hforce_cls : forall n, In n (force_candidates (x_dry x) (x_pods x) (c_forced (x_cls x))) -> In n (c_forced (x_cls x))).
+      { intros n Hn. unfold force_candidates in Hn. destruct (x_dry x); [destruct Hn|]. apply filter_In in Hn. tauto. }
+      assert (Hreap_cls : forall n, In n (reap_candidates (x_env x) (x_opts x) (x_dry x) (x_pods x) (c_tainted (x_cls x))) -> In n (c_tainted (x_cls x))).
+      { intros n Hn. unfold reap_candidates in Hn. destruct (x_dry x); [destruct Hn|]. apply filter_In in Hn. tauto. }
+      assert (Hforce_in : forall n, In n (force_candidates (x_dry x) (x_pods x) (c_forced (x_cls x))) -> In n (x_nodes x)).
+      { intros n Hn. apply Hforce_cls in Hn. rewrite Hcls in Hn. unfold filter_nodes in Hn; simpl in Hn. apply filter_In in Hn. tauto. }
+      assert (Hreap_in : forall n, In n (reap_candidates (x_env x) (x_opts x) (x_dry x) (x_pods x) (c_tainted (x_cls x))) -> In n (x_nodes x)).
+      { intros n Hn. apply Hreap_cls in Hn. rewrite Hcls in Hn. unfold filter_nodes in Hn; simpl in Hn. apply filter_In in Hn. tauto. }
+      destruct (try_delete_nodes (x_env x) (x_asg x) (force_candidates _ _ _)) as [[fcalls ferr] a1] eqn:Ef.
+      destruct (try_delete_nodes_calls _ _ _ _ _ _ Ef) as [_ [Hfro _]].
+      destruct (try_delete_seg_opt x _ _ _ _ _ (oasg_rel_refl _) Hforce_in Ef) as [(Af & Kf & -> & Hsf) Hrel1].
+      assert (Hnf : names_in (c_forced (x_cls x)) (map fst (blk_of Kf)) = true).
+      { eapply removal_names_in; [exact Hforce_cls|]. intros c Hc. apply Hfro. apply in_or_app. right. exact Hc. }
+      assert (Hnil : forall cls, names_in cls (map fst (blk_of [])) = true) by reflexivity.
+      match goal with |- context [if ?d <? 0 then _ else _] => set (d2 := d) end.
+      destruct (d2 <? 0).
+      * destruct (try_delete_nodes (x_env x) a1 (reap_candidates _ _ _ _ _)) as [[rcalls rerr] a2] eqn:Er.
+        destruct (try_delete_nodes_calls _ _ _ _ _ _ Er) as [_ [Hrro _]].
+        destruct (try_delete_seg_opt x _ _ _ _ _ Hrel1 Hreap_in Er) as [(Ar & Kr & -> & Hsr) _].
+        assert (Hnr : names_in (c_tainted (x_cls x)) (map fst (blk_of Kr)) = true).
+        { eapply removal_names_in; [exact Hreap_cls|]. intros c Hc. apply Hrro. apply in_or_app. right. exact Hc. }
+        pose proof (scale_down_taint_others (x_env x) (x_opts x) (x_min x) (x_dry x) (with_lock (x_st x) (snd (lock_check (g_lock (x_st x)) (e_now (x_env x)) (o_cool (x_opts x))))) (c_untainted (x_cls x)) (- d2)) as Ht.
+        destruct (scale_down_taint _ _ _ _ _ _ _) as [[tcalls terr] st3]. simpl in Ht.
+        destruct rerr as [[|]|]; simpl.
+        -- apply (journal_requests x lag Af Kf Ar Kr tcalls); assumption.
+        -- rewrite <- (app_nil_r (liftA Ar ++ liftK Kr)). apply (journal_requests x lag Af Kf Ar Kr []); try assumption. intros c [].
+        -- apply (journal_requests x lag Af Kf Ar Kr tcalls); assumption.
+      * destruct (0 <? d2).
+        -- pose proof (scale_up_others (x_env x) (x_opts x) (x_max x) (x_dry x) (with_lock (x_st x) (snd (lock_check (g_lock (x_st x)) (e_now (x_env x)) (o_cool (x_opts x))))) a1 (c_tainted (x_cls x)) d2) as Hu.
+           assert (Hj : check_C19_requests x (lag ++ (liftA Af ++ liftK Kf) ++ up_calls (scale_up (x_env x) (x_opts x) (x_max x) (x_dry x) (with_lock (x_st x) (snd (lock_check (g_lock (x_st x)) (e_now (x_env x)) (o_cool (x_opts x))))) a1 (c_tainted (x_cls x)) d2)) = true).
+           { pose proof (journal_requests x lag Af Kf [] [] _ Hlag Hsf (seg_ok_nil x) Hu Hnf (Hnil _)) as H. simpl in H. exact H. }
+           destruct (up_out _); simpl; exact Hj.
+        -- destruct (try_delete_nodes (x_env x) a1 (reap_candidates _ _ _ _ _)) as [[rcalls rerr] a2] eqn:Er.
+           destruct (try_delete_nodes_calls _ _ _ _ _ _ Er) as [_ [Hrro _]].
+           destruct (try_delete_seg_opt x _ _ _ _ _ Hrel1 Hreap_in Er) as [(Ar & Kr & -> & Hsr) _].
+           assert (Hnr : names_in (c_tainted (x_cls x)) (map fst (blk_of Kr)) = true).
+           { eapply removal_names_in; [exact Hreap_cls|]. intros c Hc. apply Hrro. apply in_or_app. right. exact Hc. }
+           destruct rerr as [[|]|]; simpl; rewrite <- (app_nil_r (liftA Ar ++ liftK Kr)); apply (journal_requests x lag Af Kf Ar Kr []); try assumption; intros c [].
+Qed.
+
 Theorem group_passes_C19_w now gdry api g a nodes pods :
   check_C19_group_w (ctx_of now gdry api g a nodes pods) (r_calls (scan_of now gdry api g a nodes pods)) = true.
 Proof.
   pose proof (group_passes_C19 now gdry api g a nodes pods) as H. unfold check_C19_group, check_C19_group_w in *.
-  apply andb_true_iff in H. destruct H as [H1 H2]. apply andb_true_iff. split; [apply check_C19_calls_weaken; exact H1 | exact H2].
+  apply andb_true_iff in H. destruct H as [H1 H2]. rewrite (check_C19_calls_weaken _ _ _ _ H1), H2. apply group_passes_C19_requests.
 Qed.
